@@ -152,6 +152,27 @@ def run(ctx, res):
     from pico8 import tool
     from pico8.game import file as gfile
     from pico8.lua import lua as lua_mod
+    # long runs of own-line comments (9, 12, 40 in a row — more than any small count), every one indented differently in the input: each is
+    # re-indented to its block's depth, and the result does not depend on the input indentation
+    for n_ in (9, 12, 40):
+        for mark in (b'--', b'//'):
+            for w in (0, 2, 3):
+                body = b''.join(b'%s%s c%d\n' % (b' ' * ((k * 3) % 7), mark, k) for k in range(n_))
+                src = b'do\n' + body + b'x=1\nend\n'
+                res.evaluations += 1
+                res.count('comment-run')
+                key = 'C10:comment-run:%d:%s:%d' % (n_, mark.decode(), w)
+                try:
+                    out = F.luafmt(src, w)
+                    out2 = F.luafmt(b'do\n' + b''.join(b'%s%s c%d\n' % (b' ' * ((k * 5 + 1) % 4), mark, k) for k in range(n_)) + b'x=1\nend\n', w)
+                except Exception as e:
+                    res.fail(key, 'luafmt raised %r on a run of %d own-line comments' % (e, n_), {'source': hx(src), 'indentwidth': w})
+                    continue
+                want = b'do\n' + b''.join(b'%s%s c%d\n' % (b' ' * w, mark, k) for k in range(n_)) + b' ' * w + b'x=1\nend\n'
+                if out != want or out2 != want:
+                    res.fail(key, 'a run of %d own-line %s comments inside a block is not re-indented to the block\'s depth line by line '
+                                  '(or the result depends on the input indentation)' % (n_, mark.decode()), {'source': hx(src), 'indentwidth': w},
+                             observed=hx(out)[:300], expected=hx(want)[:300])
     for i in range(ctx.budget(7, 63)):
         src = gen_lua.layout(rng, gen_lua.LuaGen(rng).program(), 'lines', final_newline=True) + b'do\nwhile x do\ny=1\nend\nend\n'
         w = [0, 1, 3, 4, 5, 8, 2][i % 7]      # every width in turn — 0 (no indentation at all) is a width like any other
